@@ -9,7 +9,7 @@ find_pfn_region, find_mapped_pfn, find_unmapped_pfn and get_pfn_map_bits for ind
 (first,last) ranges near every region and window edge, beyond the highest frame and at 2^64-1.
 Search: every answer of the implementation is judged by the extracted *spec* (engine "pfn-spec":
 "is bit p set" and nothing else)."""
-from .. import core
+from .. import core, linesrun
 
 M64 = (1 << 64) - 1
 
@@ -131,7 +131,7 @@ def gen_maps_case(rng, tier, big=False):
 def run_both(run, exe, lines, tag):
     cf = run.casefile("pfn-%s.txt" % tag, lines)
     model = core.run_model("pfn", cf)
-    impl, crashes = core.run_impl_lines(exe, run.work, lines)
+    impl, crashes = linesrun.run_impl_lines(exe, run.work, lines, timeout=5 if len(lines) == 1 else (60 if run.tier == 'quick' else 900))
     ok_idx = [i for i, o in enumerate(impl) if not (o.startswith("CRASH") or o in ("NOT-RUN", "BAD-CASE", "BAD-MAP"))]
     verd = core.run_model("pfn-spec", run.casefile("pfn-%s-spec.txt" % tag,
                                                    ["%s # %s" % (lines[i], impl[i]) for i in ok_idx]))
@@ -175,7 +175,11 @@ def report(run, exe, line):
     if kind0 is None:
         run.count("unreproducible-disagreement")
         return
-    small = shrink(run, exe, line, kind0)
+    hang = False
+    if kind0 == "crash":
+        _, _, cr, _ = run_both(run, exe, [line], "one")
+        hang = any(v[0] == "timeout" for v in cr.values())
+    small = line if hang else shrink(run, exe, line, kind0)
     model, impl, crashes, spec = run_both(run, exe, [small], "one")
     replay = {"engine": "pfn", "case": small, "model": model[0], "implementation": impl[0],
               "spec_verdict": spec.get(0, "ok"),
